@@ -288,7 +288,8 @@ Definition step (d : desc) (s : st) (e : ev) : option st :=
       match d_guard d with
       | GuardLockFlag => if flag s then Some s (* `if s.closed() { return }`: nothing is registered *) else Some add_pre
       | GuardNone => if flag s then Some add_post else Some add_pre
-      | GuardCtor => if ctor_done s then None (* no registration site outside the constructor *) else Some add_pre
+      | GuardCtor => if ctor_done s then None (* no registration site outside the constructor *)
+                     else if flag s then Some add_post else Some add_pre
       end
   | EExitPre =>
       match pre s with
